@@ -131,4 +131,10 @@ Theorem decoded_signature_well_formed bs s rest : Forall is_byte bs -> res_of (d
   fneqb (fst s) f0 = true.
 Proof. intros Hb H. destruct (ok_canonical _ c_sig_ok bs s rest Hb H) as [[_ W] _]. exact W. Qed.
 
+
+Theorem stage_codecs_ok :
+  codec_ok (c_requested K close_tag c_scalar lock_ok) /\ codec_ok (c_inactive K close_tag c_scalar c_g1 lock_ok) /\
+  codec_ok (c_ready K close_tag c_scalar c_g1 lock_ok) /\ codec_ok (c_started K close_tag c_scalar c_g1 lock_ok).
+Proof. split; [apply c_requested_ok|]. split; [apply c_inactive_ok|]. split; [apply c_ready_ok|apply c_started_ok]. Qed.
+
 End P.
